@@ -24,7 +24,8 @@ enum Item {
     Value { members: Vec<(String, VMember)> },
     /// structure that is never instantiated (may hold pointers)
     Shape { members: Vec<String> },
-    Func { body: String },
+    /// `ext`: declared `extern` (C calling convention; still private to its module unless `pub`)
+    Func { body: String, ext: bool },
     Main { body: String },
 }
 
@@ -228,7 +229,11 @@ impl Program {
             body.push_str(&format!("\tif t > {k}\n\t{{\n\t\tt = t - {};\n\t}}\n\telse\n\t{{\n\t\tt = t + {};\n\t}}\n",
                 rng.range(1, 9), rng.range(1, 9)));
             body.push_str("\treturn: t % 1000\n");
-            p.items.push(Item::Func { body });
+            // drawn from a stream of its own, so that the rest of the program is what it was without the flag
+            // ... and a function of the NAME only (not of the program): two unrelated modules of one history
+            // that both have a function f<n> then both have it `extern`, or neither
+            let ext = Rng::new(seed, 0xC11C_E000 + n as u64).chance(50);
+            p.items.push(Item::Func { body, ext });
             funcs.push(n);
         }
         // main
@@ -327,7 +332,7 @@ impl Program {
                 s.push_str("}\n");
                 s
             }
-            Item::Func { body } => format!("fn f{a}(a: i32, b: i32) -> i32\n{{\n{body}}}\n"),
+            Item::Func { body, ext } => format!("{}fn f{a}(a: i32, b: i32) -> i32\n{{\n{body}}}\n", if *ext { "extern " } else { "" }),
             Item::Main { body } => format!("fn main() -> u8\n{{\n{body}}}\n"),
         }
     }
